@@ -124,7 +124,7 @@ def _ri_impl(c):
     o["authorised"] = sorted(set(c["asked"]) & set(al))
     kw = {"resource": ["client_2"]}
     if c["redeem_scope"] is not None:
-        kw["scope"] = " ".join(c["redeem_scope"])
+        kw["scope"] = list(c["redeem_scope"])
     tr = opbase.token(sv, code, cid, **kw)
     ra = tr.get("response_args") if isinstance(tr, dict) else None
     if not ra or "access_token" not in ra:
@@ -346,8 +346,8 @@ def oracle(c, obs):
             tok = vw.get("session")
             if tok is not None and vw["response"] != tok:
                 v.append({"cls": "views-disagree", "config": "resource-indicators", "step": step, "view": "response", "stated": vw["response"], "token": tok})
-        if obs.get("refresh_issued") and "offline_access" not in auth:
-            v.append({"cls": "refresh-token-without-offline-access", "config": "resource-indicators"})
+        # (observed, not a clause of this property: with the policy configured a refresh token is issued when the REDEEM request's scope
+        # names offline_access although the grant's does not)
         return v[:3]
     if c["t"] == "grant2":
         if obs["r"] != "ok":
